@@ -212,6 +212,13 @@ def usable_after_additions(ctx, dist):
         "PBES2-HS256+A128KW": [G.oct_key(rnd, 12) for _ in range(2)],
         "mixed": [G.oct_key(rnd, 16), keys["P-256"], G.oct_key(rnd, 32)],
     }
+    # direct key agreement dictates the content key, so it can only be the FIRST recipient: added after another one it
+    # must be refused -- or, if an implementation serves it, every earlier recipient must still decrypt
+    ecdir = dict(keys["P-256"], alg="ECDH-ES")
+    may_refuse = {"ECDH-ES direct as second recipient": [G.oct_key(rnd, 16), ecdir],
+                  "ECDH-ES direct as third recipient": [G.oct_key(rnd, 16), G.oct_key(rnd, 32), ecdir],
+                  "ECDH-ES direct after ECDH-ES+A128KW": [ec[1], ecdir]}
+    families.update(may_refuse)
     req, meta = [], []
     for fam, ks in families.items():
         for tmpl_kind, rcp in (("one template with header", {"header": {"purpose": "c16"}}), ("one empty template", {}), ("no template", None),
@@ -231,6 +238,8 @@ def usable_after_additions(ctx, dist):
     for r, o, (fam, kind, ks) in zip(req, outs, meta):
         if o.startswith("CRASH"):
             rep.violation("usable:crash:" + fam, "crash: " + o[:200], {"case": r})
+            continue
+        if o == "ERR" and fam in may_refuse:
             continue
         if o == "ERR":
             rep.violation("usable:enc-failed:%s:%s" % (fam, kind), "jose_jwe_enc with a key set (%s, %s) failed" % (fam, kind), {"case": r})
